@@ -48,8 +48,11 @@ def signature(scn, spelling, kind):
         "ok" if scn["out"]["r"]["ok"] else scn["out"]["r"]["err"])
 
 
-def _conc_rhs(rhs):
-    vals = [A.cell_enc(c, rhs["kind"]) for c in rhs["cells"]]
+ZERO = {"f": 0.0, "i": 0, "b": False, "O": ""}
+
+
+def _conc_rhs(rhs, zero=False):
+    vals = [(ZERO[rhs["kind"]] if zero else A.cell_enc(c, rhs["kind"])) for c in rhs["cells"]]
     if rhs["shape"] == []:
         return vals[0]
     dt = {"f": float, "i": int, "b": bool, "O": object}[rhs["kind"]]
@@ -133,9 +136,12 @@ def replay(scn):
         kinds = [kind] * nd
         codec = A.LabelCodec(offset=off)
         kind = kind + ("@%d" % off if off else "")
-        for si, sp in enumerate(_spellings(i)):
+        for si, sp in enumerate(_spellings(i) + (["zero:" + _spellings(i)[0]] if vi == 0 and i["fam"] in ("forms", "dtypes", "mask") else [])):
+            zero = sp.startswith("zero:")        # falsy assigned values (0, 0.0, False, '')
+            if zero:
+                sp = sp[5:]
             tup = index_tuple(i["idxs"], kinds, codec, i["mode"], (si + vi) % 2) if i["fam"] not in ("mask",) else None
-            rhs = _conc_rhs(i["rhs"])
+            rhs = _conc_rhs(i["rhs"], zero)
             rhs_before = repr(rhs)
             a = A.gamma(a_abs, codec, kinds)
             before = A.snapshot(a)
@@ -178,21 +184,21 @@ def replay(scn):
                     except A.Unprojectable as ex:
                         what = "result not projectable: %s" % ex
                 if what is None:
-                    expv = [A.cell_enc(c, i["rhs"]["kind"] if c > 900 else a_abs["dtype"]) for c in r["val"]["cells"]]
+                    expv = [(ZERO[i["rhs"]["kind"]] if zero else A.cell_enc(c, i["rhs"]["kind"])) if c > 900 else A.cell_enc(c, a_abs["dtype"]) for c in r["val"]["cells"]]
                     actv = res.values.ravel().tolist()
                     if len(expv) != len(actv) or not all(_eq(x, y) for x, y in zip(expv, actv)):
                         what = "cells: expected %s got %s" % (expv, actv)
                 if what is None and exp["readback"]["ok"] and i["fam"] == "forms":
                     try:
                         rb = res.take(tup, indexing=i["mode"])
-                        expv = [A.cell_enc(c, i["rhs"]["kind"] if c > 900 else a_abs["dtype"]) for c in exp["readback"]["val"]["cells"]]
+                        expv = [(ZERO[i["rhs"]["kind"]] if zero else A.cell_enc(c, i["rhs"]["kind"])) if c > 900 else A.cell_enc(c, a_abs["dtype"]) for c in exp["readback"]["val"]["cells"]]
                         actv = np.asarray(rb.values if isinstance(rb, A.DimArray) else rb).ravel().tolist()
                         if len(expv) != len(actv) or not all(_eq(x, y) for x, y in zip(expv, actv)):
                             what = "read-back: expected %s got %s" % (expv, actv)
                     except Exception as ex:  # noqa
                         what = "read-back raised %s: %s" % (type(ex).__name__, str(ex)[:200])
             if what:
-                viol.append(dict(what=what, sig=signature(scn, sp, kind), variant="kind=%s spelling=%s" % (kind, sp)))
+                viol.append(dict(what=what, sig=signature(scn, sp + ("/zero" if zero else ""), kind), variant="kind=%s spelling=%s zero=%s" % (kind, sp, zero)))
     return dict(violations=viol, calls=calls)
 
 
